@@ -103,9 +103,18 @@ def gen_lf(wd):
                 "static void lf_mark_done(int32_t x_sb_index, int32_t *sb_lf_completed_in_row) {\n" + m.group(0) + "\n}\n")
 
 
+def gen_lf_init(wd):
+    A = "    DecMtlfFrameInfo *dec_mt_lf_frame_info = &dec_mt_frame_data1->lf_frame_info;\n"
+    B = "    set_lbd_lf_filter_tap_functions();\n"
+    blk = slicer.between(DPR, A, B)
+    open(os.path.join(wd, "c09_lf_init.inc"), "w").write(
+        "/* sliced verbatim from dec_av1_loop_filter_frame_mt (EbDecProcess.c) */\nstatic void lf_init_block(EbDecHandle *dec_handle, LfCtxt *lf_ctxt, DecMtFrameData *dec_mt_frame_data1, int32_t plane_start, int32_t plane_end) {\n"
+        "    FrameHeader *frm_hdr = &dec_handle->frame_header;\n" + blk + "}\n")
+
+
 META = {
     "engine": "E5 symbolic scheduler",
-    "level_text": "FOUR mechanisms of the property: the per-superblock-row saving of loop-restoration stripe context (every stripe of the frame covered), and the row-to-row synchronisation of the multi-threaded reconstruction stage (decode_tile_row), of the loop-filter stage (dec_loop_filter_row), of the CDEF stage (svt_cdef_sb_row_mt) and of the loop-restoration stage (dec_av1_loop_restoration_filter_row). Their synchronisation statements (sliced verbatim; the spin-wait is turned into a non-blocking test) run under every schedule of one worker per superblock row, for pictures 1..4 superblocks wide and 3 rows high: a superblock is filtered only after the superblocks above and above-right were filtered, and a row whose upper row is complete is never blocked.",
+    "level_text": "SIX mechanisms of the property: the once-per-frame loop-filter table initialisation (no thread filters before the tables are complete), the per-superblock-row saving of loop-restoration stripe context (every stripe of the frame covered), and the row-to-row synchronisation of the multi-threaded reconstruction stage (decode_tile_row), of the loop-filter stage (dec_loop_filter_row), of the CDEF stage (svt_cdef_sb_row_mt) and of the loop-restoration stage (dec_av1_loop_restoration_filter_row). Their synchronisation statements (sliced verbatim; the spin-wait is turned into a non-blocking test) run under every schedule of one worker per superblock row, for pictures 1..4 superblocks wide and 3 rows high: a superblock is filtered only after the superblocks above and above-right were filtered, and a row whose upper row is complete is never blocked.",
     "level_note": "Everything else the property states is NOT decided: tile parse / loop-filter / loop-restoration hand-offs, stage-to-stage hand-offs, data races in general, hangs of the whole pipeline, equality with single-thread output (the decoder's job bodies cannot be executed symbolically; see DESIGN.md). Teardown after multi-threaded decoding is decided under C15, the mode-info map bounds under C10.",
     "technique": "CBMC bounded symbolic execution with a symbolic row schedule over verbatim slices of the synchronisation statements",
     "assumptions": ["cdef_completed_in_row is zeroed at the start of the frame (memset in svt_av1_queue_cdef_jobs)", "one thread works on a row from left to right (get_sb_row_to_process hands out whole rows)"],
@@ -130,6 +139,10 @@ def queries(tier):
                   funcs=[LFC + ":dec_loop_filter_row (Top-Right Sync block and completion update, sliced)"],
                   bound="picture %d superblock(s) wide, 3 superblock rows, every schedule of the three row workers" % w,
                   what="top and top-right superblocks are loop-filtered before a superblock starts; no blocked row when its upper row is complete") for w in (1, 2, 3, 4)] + \
+           [Query(name="lf_tables_initialised_before_any_row", harness="C09/lf_init.c", gen=gen_lf_init, unwind=70, timeout=600, flags=["--slice-formula"],
+                  funcs=[DPR + ":dec_av1_loop_filter_frame_mt (frame-level table initialisation block, sliced)"],
+                  bound="two threads; the second may run its whole block at any mutex operation of the first or while the tables are being built",
+                  what="no thread leaves the initialisation block before the frame's loop-filter tables are complete")] + \
            [Query(name="lr_stripe_context_saved_for_every_stripe", harness="C09/lr_bdry.c", gen=gen_bdry, unwind=10, timeout=600, flags=["--slice-formula"],
                   funcs=[DPR + ":dec_save_lf_boundary_lines_sb_row"], bound="every even frame height 16..384, superblock 64 and 128, luma plane",
                   what="the per-superblock-row saver of the multi-threaded pipeline saves the deblocked above/below context of every restoration stripe of the frame")]
